@@ -313,6 +313,11 @@ class Check:
         self.extra = {}
         self.checker_cmd = 'make -k -C coq Properties_%s.vo (coqc 8.16.1, full .vo build)' % pid
         self.known = [k for k in load_known().get('known', []) if k.get('property') == pid]
+        for old in glob.glob(os.path.join(ROOT, 'evidence', 'replay', pid + '-*.json')):
+            try:
+                os.remove(old)
+            except OSError:
+                pass
 
     # -- proof side
     def prove(self, prop_file=None, extra_targets=(), timeout=3000):
@@ -438,3 +443,101 @@ def run_lines(exe, args, inp=None, timeout=3000, env=None):
         e.update(env)
     rc, out, err = sh([exe] + list(args), inp=inp, timeout=timeout, env=e)
     return rc, out.decode('utf-8', 'replace').splitlines(), err.decode('utf-8', 'replace')
+
+
+# ---------------------------------------------------------------- correspondence runner
+
+def _run_chunk(exe, lines, timeout, env=None):
+    """Run the harness over input lines, surviving crashes: returns (out_lines, crashes)."""
+    out_all, crashes = [], []
+    todo = lines
+    guard = 0
+    while todo and guard < 50:
+        guard += 1
+        rc, out, err = run_lines(exe, [], inp=('\n'.join(todo) + '\n').encode(), timeout=timeout, env=env)
+        out_all.extend(out)
+        if rc == 0:
+            break
+        # find the input line being processed when the process died: the first one with no output
+        done = 0
+        oi = 0
+        for i, l in enumerate(todo):
+            key = l + '\t'
+            if l.split('\t')[0] in BULK_CMDS:
+                done = i + 1   # cannot attribute precisely; assume completed unless it is the last seen
+                continue
+            if oi < len(out) and out[oi].startswith(key):
+                oi += 1
+                done = i + 1
+            else:
+                # skip bulk outputs
+                while oi < len(out) and not out[oi].startswith(key):
+                    oi += 1
+                if oi < len(out):
+                    oi += 1
+                    done = i + 1
+                else:
+                    break
+        if done >= len(todo):
+            break
+        culprit = todo[done]
+        kind = 'TIMEOUT' if rc == -9 else 'CRASH'
+        crashes.append((culprit, kind, err[-1500:]))
+        out_all.append(culprit + '\t' + kind)
+        todo = todo[done + 1:]
+    return out_all, crashes
+
+
+BULK_CMDS = set()
+
+
+def correspond(chk, harness, driver, lines, timeout=3000, jobs=None, env=None):
+    """Run `lines` (cmd \\t args) through the C++ harness and the extracted model.
+    Returns dict(outputs=[...], mismatches=[(cmd,args,impl,model)], crashes=[...], oracle_fail=[(cmd,args,res)])."""
+    from concurrent.futures import ThreadPoolExecutor
+    jobs = jobs or NPROC
+    n = max(1, min(jobs, (len(lines) + 199) // 200))
+    chunks = [lines[i::n] for i in range(n)]
+    t0 = time.time()
+    with ThreadPoolExecutor(max_workers=n) as ex:
+        results = list(ex.map(lambda c: _run_chunk(harness, c, timeout, env), chunks))
+    outs, crashes = [], []
+    for o, c in results:
+        outs.extend(o)
+        crashes.extend(c)
+    t1 = time.time()
+    oracle_fail = []
+    model_lines = []
+    for l in outs:
+        parts = l.split('\t')
+        if len(parts) != 3:
+            continue
+        if parts[0].startswith('o_'):
+            if not (parts[2] in ('1', 'ok', 'skip') or parts[2].startswith('0 count') and False):
+                oracle_fail.append(tuple(parts))
+        else:
+            model_lines.append(l)
+    mismatches = []
+    summary = (0, 0, 0)
+    if driver and model_lines:
+        m = max(1, min(jobs, (len(model_lines) + 499) // 500))
+        mchunks = [model_lines[i::m] for i in range(m)]
+        with ThreadPoolExecutor(max_workers=m) as ex:
+            dres = list(ex.map(lambda c: run_lines(driver, [], inp=('\n'.join(c) + '\n').encode(),
+                                                   timeout=timeout), mchunks))
+        tot = bad = skip = 0
+        for rc, dout, derr in dres:
+            ok = False
+            for dl in dout:
+                p = dl.split('\t')
+                if p[0] == 'MISMATCH' and len(p) >= 5:
+                    mismatches.append((p[1], p[2], p[3][5:], p[4][6:]))
+                elif p[0] == 'SUMMARY':
+                    tot += int(p[1]); bad += int(p[2]); skip += int(p[3]); ok = True
+            if not ok:
+                mismatches.append(('DRIVER', 'rc=%s' % rc, '', derr[-500:]))
+        summary = (tot, bad, skip)
+    log('correspond: %d inputs -> %d outputs, %d mismatches, %d crashes, %d oracle failures (%.1fs + %.1fs)' % (
+        len(lines), len(outs), len(mismatches), len(crashes), len(oracle_fail), t1 - t0, time.time() - t1))
+    return {'outputs': outs, 'mismatches': mismatches, 'crashes': crashes, 'oracle_fail': oracle_fail,
+            'summary': summary}
